@@ -2,7 +2,10 @@ package core
 
 import (
 	"errors"
+	"fmt"
 	"io"
+	"os"
+	"time"
 )
 
 // ErrInjected is the error every injected fault returns.
@@ -42,6 +45,7 @@ type Sink struct {
 	FirstFailAPI string
 	Yield        func() // scheduling point (C13), may be nil
 	Log          *EventLog
+	Flushes      int // Flush/Sync calls seen (kind wx)
 }
 
 func (s *Sink) Write(p []byte) (int, error) { return s.write(p, "write") }
@@ -67,6 +71,12 @@ func (s SinkX) ReadFrom(r io.Reader) (int64, error) {
 	}
 	return int64(n), err
 }
+
+// Flush and Sync make the destination look like a *bufio.Writer / *os.File to
+// code that type-asserts for them. They always succeed (the property is about
+// failing writes) and are recorded.
+func (s SinkX) Flush() error { s.Sink.Flushes++; return nil }
+func (s SinkX) Sync() error  { s.Sink.Flushes++; return nil }
 
 // AsWriter returns the sink in the requested flavour: "w" (io.Writer only) or "wx".
 func (s *Sink) AsWriter(kind string) io.Writer {
@@ -162,6 +172,8 @@ type Source struct {
 	// (0 for Seek), so that fault plans can be biased to the large reads.
 	Record bool
 	Req    []int32
+	// FileName is the name the source reports in kind "rsf".
+	FileName string
 }
 
 func (s *Source) rec(n int) {
@@ -406,15 +418,45 @@ func (s SourceX) WriteTo(w io.Writer) (int64, error) {
 	return int64(n), err
 }
 
+// SourceF additionally looks like an *os.File on the simulated disk: it has a
+// name and can be Stat-ed. The simulated disk has no clock: the modification
+// time never changes, also not when a crash leaves a shorter file under the
+// same name.
+type SourceF struct{ SourceX }
+
+func (s SourceF) Name() string { return s.Source.FileName }
+func (s SourceF) Stat() (os.FileInfo, error) {
+	return simFileInfo{name: s.Source.FileName, size: int64(len(s.Source.data))}, nil
+}
+
+type simFileInfo struct {
+	name string
+	size int64
+}
+
+func (f simFileInfo) Name() string       { return f.name }
+func (f simFileInfo) Size() int64        { return f.size }
+func (f simFileInfo) Mode() os.FileMode  { return 0o644 }
+func (f simFileInfo) ModTime() time.Time { return time.Unix(1000000000, 0) }
+func (f simFileInfo) IsDir() bool        { return false }
+func (f simFileInfo) Sys() interface{}   { return nil }
+
 // AsReadSeeker returns the source in the requested flavour: "rs"
-// (io.ReadSeeker only), "rsb" (+ io.ByteReader) or "rsx" (+ io.ByteReader,
-// io.ReaderAt, io.WriterTo).
+// (io.ReadSeeker only), "rsb" (+ io.ByteReader), "rsx" (+ io.ByteReader,
+// io.ReaderAt, io.WriterTo) or "rsf" (rsx + Name and Stat, like *os.File).
 func (s *Source) AsReadSeeker(kind string) io.ReadSeeker {
 	switch kind {
 	case "rsb":
 		return SourceB{s}
 	case "rsx":
 		return SourceX{SourceB{s}}
+	case "rsf":
+		if s.FileName == "" {
+			// one name per file content; callers that open a shorter version of the
+			// same file (C11) set the name of the complete file themselves
+			s.FileName = fmt.Sprintf("sim-%016x.parquet", HashBytes(s.data))
+		}
+		return SourceF{SourceX{SourceB{s}}}
 	}
 	return s
 }
